@@ -158,7 +158,9 @@ func (f *Forest) ProjectItem(v any) Item {
 	if r, pi, ok := f.lookup(m); ok {
 		it["r"] = r
 		it["addr"] = append([]int{}, pi.Node.Addr...)
-		it["wrapped"] = pi.Wrapped && pi.Node.Ch
+		// the pointer is a wrapper around the node's element (a choice wrapper, a ContainedResource or the
+		// Any holding a contained resource) rather than the element itself
+		it["wrapped"] = pi.Wrapped
 	}
 	if r, pi, ok := f.lookup(m); ok && r > 0 && !pi.Wrapped && pi.Node.K == "prim" {
 		it["v"] = pi.Node.V
